@@ -68,22 +68,126 @@ def scan():
         GEN_CTORS = ("np.random.RandomState", "numpy.random.RandomState", "np.random.default_rng", "numpy.random.default_rng",
                      "np.random.Generator", "RandomState", "default_rng")
 
+        # --- aliases: every name under which numpy / numpy.random / a numpy.random function is reachable in this module
+        np_alias, npr_alias, direct = {"np", "numpy"}, set(), {}
+        for nd in ast.walk(tree):
+            if isinstance(nd, ast.Import):
+                for a in nd.names:
+                    if a.name == "numpy":
+                        np_alias.add(a.asname or "numpy")
+                    elif a.name == "numpy.random":
+                        if a.asname:
+                            npr_alias.add(a.asname)
+                        else:
+                            np_alias.add("numpy")
+                    elif a.name.split(".")[0] in ("secrets", "uuid"):
+                        unknown.append((rel, "<module>", f"entropy source `{a.name}` imported (line {nd.lineno})"))
+            elif isinstance(nd, ast.ImportFrom):
+                if nd.module == "numpy":
+                    for a in nd.names:
+                        if a.name == "random":
+                            npr_alias.add(a.asname or "random")
+                        elif a.name == "*":
+                            unknown.append((rel, "<module>", f"`from numpy import *` (line {nd.lineno}): numpy.random reachable as `random`"))
+                elif nd.module in ("numpy.random", "numpy.random.mtrand"):
+                    for a in nd.names:
+                        if a.name == "*":
+                            unknown.append((rel, "<module>", f"`from numpy.random import *` (line {nd.lineno}): unqualified RNG functions"))
+                        else:
+                            direct[a.asname or a.name] = a.name
+                elif nd.module in ("secrets", "uuid"):
+                    unknown.append((rel, "<module>", f"entropy source `{nd.module}` imported (line {nd.lineno})"))
+                elif nd.module == "os" and any(a.name in ("urandom", "getrandom") for a in nd.names):
+                    unknown.append((rel, "<module>", f"`os.urandom` imported (line {nd.lineno})"))
+
+        def canon(n):
+            """name of a call target with the module's aliases resolved to the spelling `np.random.<f>`"""
+            if not n:
+                return n
+            parts = n.split(".")
+            if len(parts) >= 2 and parts[0] in np_alias and parts[1] == "random":
+                return ".".join(["np", "random"] + parts[2:])
+            if parts[0] in npr_alias:
+                return ".".join(["np", "random"] + parts[1:])
+            if len(parts) == 1 and parts[0] in direct:
+                return "np.random." + direct[parts[0]]
+            return n
+
+        # --- references to numpy.random (or to one of its functions) that are not the target of a call: each creates an
+        # alias through which draws would bypass this table (`f = np.random.rand`, `r = np.random`, getattr(np, "random"), …)
+        parent = {}
+        for nd in ast.walk(tree):
+            for ch in ast.iter_child_nodes(nd):
+                parent[ch] = nd
+
+        def is_npr(nd):
+            return (isinstance(nd, ast.Attribute) and nd.attr == "random" and isinstance(nd.value, ast.Name) and nd.value.id in np_alias) \
+                or (isinstance(nd, ast.Name) and nd.id in npr_alias)
+
+        def owner(nd):
+            cur, fn_name, cls_name = nd, None, None
+            while cur in parent:
+                cur = parent[cur]
+                if isinstance(cur, (ast.FunctionDef, ast.AsyncFunctionDef)) and fn_name is None:
+                    fn_name = cur.name
+                if isinstance(cur, ast.ClassDef) and cls_name is None:
+                    cls_name = cur.name
+            return (f"{cls_name}.{fn_name}" if cls_name and fn_name else fn_name or "<module>")
+        for nd in ast.walk(tree):
+            if is_npr(nd) and isinstance(getattr(nd, "ctx", None), ast.Load):
+                p = parent.get(nd)
+                if isinstance(p, ast.Attribute) and p.value is nd:
+                    pp = parent.get(p)
+                    if isinstance(pp, ast.Call) and pp.func is p:
+                        continue            # np.random.<f>(…): an ordinary call site, classified below
+                    unknown.append((rel, owner(nd), f"reference to np.random.{p.attr} without calling it (line {p.lineno}): alias of an RNG function / class"))
+                    continue
+                if isinstance(p, ast.Assign) and p.value is nd and len(p.targets) == 1 and isinstance(p.targets[0], ast.Attribute) \
+                        and p.targets[0].attr in ("_rng", "rng"):
+                    continue                # self._rng = np.random : the attribute generator, modelled (argKind attr-generator)
+                unknown.append((rel, owner(nd), f"numpy.random used as a value (line {nd.lineno}): alias of the RNG module"))
+            elif isinstance(nd, ast.Name) and nd.id in direct and isinstance(nd.ctx, ast.Load):
+                p = parent.get(nd)
+                if not (isinstance(p, ast.Call) and p.func is nd):
+                    unknown.append((rel, owner(nd), f"`{nd.id}` (numpy.random.{direct[nd.id]}) used as a value (line {nd.lineno})"))
+            elif isinstance(nd, ast.Call) and isinstance(nd.func, ast.Name) and nd.func.id in ("getattr", "__import__", "eval", "exec"):
+                txt = ast.unparse(nd)
+                if "random" in txt or nd.func.id in ("eval", "exec", "__import__"):
+                    unknown.append((rel, owner(nd), f"dynamic lookup `{txt[:60]}` (line {nd.lineno})"))
+            elif isinstance(nd, ast.Call) and _name(nd.func) in ("os.urandom", "os.getrandom", "importlib.import_module"):
+                unknown.append((rel, owner(nd), f"`{_name(nd.func)}` (line {nd.lineno})"))
+        # names holding a private generator: `_rng` / `rng` and every target a generator constructor is assigned to
+        gen_holders = {"_rng", "rng"}
+        for nd in ast.walk(tree):
+            if isinstance(nd, ast.Assign) and isinstance(nd.value, ast.Call) and canon(_name(nd.value.func) or "") in GEN_CTORS:
+                for t in nd.targets:
+                    tn = _name(t)
+                    if tn:
+                        gen_holders.add(tn.split(".")[-1])
+
         def visit_func(fn, qual):
             params = {a.arg for a in fn.args.args + fn.args.kwonlyargs}
             # a generator built in a DEFAULT ARGUMENT is created once, at definition time, and shared by every call in the
             # process: its stream carries over from one fit / run to the next, which no per-call table entry can express
             for dflt in list(fn.args.defaults) + [d for d in fn.args.kw_defaults if d is not None]:
                 for c in ast.walk(dflt):
-                    if isinstance(c, ast.Call) and (_name(c.func) or "") in GEN_CTORS:
+                    if isinstance(c, ast.Call) and canon(_name(c.func) or "") in GEN_CTORS:
                         unknown.append((rel, qual, f"generator constructed in a default argument (line {c.lineno}): shared across calls"))
             calls = sorted((n for n in ast.walk(fn) if isinstance(n, ast.Call)), key=lambda n: (n.lineno, n.col_offset))
             for c in calls:
-                n = _name(c.func) or ""
+                n = canon(_name(c.func) or "")
                 parts = n.split(".")
                 last = parts[-1]
                 if n in ("np.random.seed", "numpy.random.seed"):
                     arg = c.args[0] if c.args else (c.keywords[0].value if c.keywords else None)
                     sites.append((rel, qual, "seed", "np.random.seed", _classify_arg(arg, params), c.lineno))
+                elif n == "np.random.get_state":
+                    # reads the position of the process-wide stream; consumes nothing
+                    sites.append((rel, qual, "getstate", "np.random.get_state", "none", c.lineno))
+                elif n == "np.random.set_state":
+                    # puts the process-wide stream to a stored position; where the stored value comes from is an obligation
+                    arg = c.args[0] if c.args else (c.keywords[0].value if c.keywords else None)
+                    sites.append((rel, qual, "setstate", "np.random.set_state", _classify_arg(arg, params), c.lineno))
                 elif n in ("np.random.RandomState", "numpy.random.RandomState", "np.random.default_rng", "numpy.random.default_rng",
                            "np.random.Generator", "RandomState", "default_rng"):
                     arg = c.args[0] if c.args else None
@@ -93,7 +197,7 @@ def scan():
                         sites.append((rel, qual, "draw", n, "global", c.lineno))
                     else:
                         unknown.append((rel, qual, f"np.random.{last} (line {c.lineno})"))
-                elif len(parts) >= 2 and parts[-2] in ("_rng", "rng") and last in DRAWS:
+                elif len(parts) >= 2 and parts[-2] in gen_holders and last in DRAWS:
                     sites.append((rel, qual, "draw", n, "attr-generator", c.lineno))
                 elif last == "rvs":
                     unknown.append((rel, qual, f"scipy-style .rvs() (line {c.lineno})"))
@@ -101,8 +205,8 @@ def scan():
             # module-level / class-level statements run once at import: a generator or a seeding call there is process-wide state
             for c in ast.walk(stmt):
                 if isinstance(c, ast.Call):
-                    n = _name(c.func) or ""
-                    if n in GEN_CTORS or n in ("np.random.seed", "numpy.random.seed"):
+                    n = canon(_name(c.func) or "")
+                    if n in GEN_CTORS or n in ("np.random.seed", "numpy.random.seed", "np.random.set_state") or (n.startswith("np.random.") and n.split(".")[-1] in DRAWS):
                         unknown.append((rel, qual, f"{n} at import time (line {c.lineno}): process-wide shared random state"))
         for node in tree.body:
             if isinstance(node, ast.FunctionDef):
@@ -159,13 +263,46 @@ def scan():
                         if not (isinstance(v, ast.Constant) and v.value is None):
                             param_seed_calls.append((rel, cn, pn, ast.unparse(v) if not isinstance(v, ast.Name) else v.id, node.lineno))
     scan.param_seed_calls = param_seed_calls
+    # checkpoint data flow of the stream position:  <dict>["k"] = np.random.get_state()  …  np.random.set_state(<dict>["k"])
+    saved = []
+    for rel, tree in sorted(trees.items()):
+        for fn in [n for n in ast.walk(tree) if isinstance(n, ast.FunctionDef)]:
+            for a in ast.walk(fn):
+                if isinstance(a, ast.Assign) and isinstance(a.value, ast.Call) and (_name(a.value.func) or "") in ("np.random.get_state", "numpy.random.get_state"):
+                    for t in a.targets:
+                        if isinstance(t, ast.Subscript) and isinstance(t.slice, ast.Constant) and isinstance(t.slice.value, str):
+                            saved.append((rel, fn.name, t.slice.value))
+    # drawing call sites that sit lexically inside a `while` / `for` of their function: their number of executions is
+    # data-dependent (adaptive), which is what Model.RngSites models with a loop (mcmcLoop, forEach over label groups, warmRedraw)
+    loop_sites = []
+    draw_lines = {(a, ln): (b, d) for a, b, c, d, e, ln in sites if c == "draw"}
+    for rel, tree in sorted(trees.items()):
+        par = {}
+        for nd in ast.walk(tree):
+            for ch in ast.iter_child_nodes(nd):
+                par[ch] = nd
+        for nd in ast.walk(tree):
+            if isinstance(nd, ast.Call) and (rel, nd.lineno) in draw_lines:
+                cur, kind = nd, None
+                while cur in par:
+                    cur = par[cur]
+                    if isinstance(cur, (ast.FunctionDef, ast.AsyncFunctionDef)):
+                        break
+                    if isinstance(cur, (ast.While, ast.For)):
+                        kind = "while" if isinstance(cur, ast.While) else "for"
+                        break
+                if kind:
+                    loop_sites.append(draw_lines[(rel, nd.lineno)] + (kind,))
+    scan.loop_sites = sorted(set(loop_sites))
+    scan.saved_state_keys = saved
+    scan.restore_keys = [(b, e.split(":", 1)[1]) for a, b, c, d, e, _ in sites if c == "setstate" and e.startswith("loaded:")]
     return sites, unknown, inst_literals
 
 
 def _run_seeded_before_loop():
     """run_sampling: the fresh branch calls _initialize_fresh (which seeds from config.random_state) before the while loop"""
     tree = ast.parse(open(os.path.join(common.REPO, "tempest/core.py")).read())
-    res = {"fresh_before_loop": 0, "init_seeds_config": 0, "seed_guarded_not_none": 0}
+    res = {"fresh_before_loop": 0, "init_seeds_config": 0, "seed_guarded_not_none": 0, "fresh_only_when_history_empty": 0}
     for cls in [n for n in ast.walk(tree) if isinstance(n, ast.ClassDef) and n.name == "SamplerCore"]:
         for f in cls.body:
             if isinstance(f, ast.FunctionDef) and f.name == "run_sampling":
@@ -173,6 +310,23 @@ def _run_seeded_before_loop():
                 calls = [n for n in ast.walk(f) if isinstance(n, ast.Call) and _name(n.func) == "self._initialize_fresh"]
                 if wl and calls and all(c.lineno < wl[0] for c in calls):
                     res["fresh_before_loop"] = 1
+                # the call sits on the FINAL else of  `if resume…: … elif self.state.get_history_length() > 0: … else: …`
+                # and neither earlier branch seeds: a run seeds only before the first committed batch
+                for st in f.body:
+                    if isinstance(st, ast.If) and any(c in list(ast.walk(st)) for c in calls):
+                        chain, cur = [], st
+                        while isinstance(cur, ast.If):
+                            chain.append(cur)
+                            cur = cur.orelse[0] if len(cur.orelse) == 1 and isinstance(cur.orelse[0], ast.If) else None
+                        last = chain[-1]
+                        in_final_else = all(any(c in list(ast.walk(x)) for x in last.orelse) for c in calls)
+                        hist = [b for b in chain if "get_history_length" in ast.dump(b.test) and isinstance(b.test, ast.Compare)
+                                and len(b.test.ops) == 1 and isinstance(b.test.ops[0], ast.Gt)
+                                and isinstance(b.test.comparators[0], ast.Constant) and b.test.comparators[0].value == 0]
+                        others_clean = all(not any(isinstance(n, ast.Call) and (_name(n.func) or "").endswith((".seed", "_initialize_fresh"))
+                                                   for x in b.body for n in ast.walk(x)) for b in chain)
+                        if in_final_else and hist and others_clean:
+                            res["fresh_only_when_history_empty"] = 1
             if isinstance(f, ast.FunctionDef) and f.name == "_initialize_fresh":
                 for n in ast.walk(f):
                     if isinstance(n, ast.If):
@@ -192,7 +346,7 @@ def render(sites, unknown, inst, flow):
         return '"' + str(s).replace("\\", "\\\\").replace('"', '\\"') + '"'
     L = ["/- GENERATED by translate/g3_rng.py from /repo's current source — do not edit. -/",
          "namespace Gen.Rng", "",
-         "structure Site where", "  file : String", "  func : String", "  kind : String   -- draw | seed | private",
+         "structure Site where", "  file : String", "  func : String", "  kind : String   -- draw | seed | private | getstate | setstate",
          "  what : String", "  argKind : String   -- literal | config | loaded | param | attr | other | global | attr-generator | none",
          "  arg : String", "deriving DecidableEq, Repr", "",
          "def sites : List Site := ["]
@@ -209,6 +363,17 @@ def render(sites, unknown, inst, flow):
     L.append("/-- call sites, inside the package, that pass a value for the seed PARAMETER of a function seeding the GLOBAL generator from it -/")
     L.append("def paramSeedCallSites : List (String × String × String × String) := [" +
              ", ".join(f"({q(a)}, {q(b)}, {q(c)}, {q(d)})" for a, b, c, d, _ in getattr(scan, "param_seed_calls", [])) + "]")
+    L.append("")
+    L.append("/-- drawing call sites lexically inside a loop of their function: (function, numpy call, while | for) -/")
+    L.append("def loopDrawSites : List (String × String × String) := [" +
+             ", ".join(f"({q(a)}, {q(b)}, {q(c)})" for a, b, c in getattr(scan, "loop_sites", [])) + "]")
+    L.append("")
+    L.append("/-- where the stream position is WRITTEN into a checkpoint dictionary: (function, key) of `d[key] = np.random.get_state()` -/")
+    L.append("def savedStateKeys : List (String × String) := [" +
+             ", ".join(f"({q(b)}, {q(c)})" for a, b, c in getattr(scan, "saved_state_keys", [])) + "]")
+    L.append("/-- where it is RESTORED from one: (function, key) of `np.random.set_state(d[key])` -/")
+    L.append("def restoreKeys : List (String × String) := [" +
+             ", ".join(f"({q(a)}, {q(b)})" for a, b in getattr(scan, "restore_keys", [])) + "]")
     L.append("")
     for k, v in flow.items():
         L.append(f"def {k} : Nat := {v}")
